@@ -37,6 +37,7 @@ type Case struct {
 }
 
 type Wait struct {
+	Dial       bool // a dial wait (voice flows only); otherwise a msg wait
 	HasTimeout bool
 	Seconds    int
 	TimeoutCat int
@@ -59,7 +60,7 @@ type Node struct {
 
 type Flow struct {
 	ID    int
-	Type  int // 0 messaging, 1 messaging_background
+	Type  int // 0 messaging, 1 messaging_background, 2 voice
 	Nodes []*Node
 	// Corrupt != "": the definition handed to the real loader violates exactly one load-time rule (see
 	// corruptKinds) at node CorruptNode.  The loader rejects such a flow, so for the engine it is as good as
@@ -88,7 +89,9 @@ type Assets struct {
 	Opts  Options
 }
 
-var flowTypes = []string{"messaging", "messaging_background"}
+var flowTypes = []string{"messaging", "messaging_background", "voice"}
+
+const channelUUID = "a78930fe-6a40-4aa8-99c3-e61b02f45ca1"
 
 func uuidOf(kind, id int) string { return fmt.Sprintf("%08d-0000-4000-8000-%012d", kind, id) }
 
@@ -250,6 +253,49 @@ func genChain(r *hx.Rand, cfg GenCfg) *Assets {
 				f.Nodes = append(f.Nodes, second)
 				first.Exits[0].Dest = second.ID
 			}
+		}
+	}
+	return a
+}
+
+// genVoice builds voice flows: dial waits (and some msg waits) on nodes whose exits lead back to waits, so that a
+// session keeps coming back to a wait sprint after sprint; sub-flows of the same type; small resume limits
+func genVoice(r *hx.Rand) *Assets {
+	a := &Assets{Opts: Options{MaxSteps: 100, MaxResumes: hx.Pick(r, []int{0, 1, 2, 3, 4, 500}), MaxTemplateChars: 10000, MaxResultChars: 640}}
+	nflows := r.Range(1, 2)
+	for i := 1; i <= nflows; i++ {
+		f := &Flow{ID: i, Type: 2}
+		nn := r.Range(1, 3)
+		for j := 1; j <= nn; j++ {
+			f.Nodes = append(f.Nodes, &Node{ID: i*100 + j})
+		}
+		a.Flows = append(a.Flows, f)
+	}
+	for _, f := range a.Flows {
+		for _, n := range f.Nodes {
+			if r.Chance(1, 3) {
+				n.Actions = append(n.Actions, Action{Kind: "set_run_result", Name: hx.Pick(r, resultNames), Text: genText(r)})
+			}
+			if f.ID == 1 && len(a.Flows) > 1 && r.Chance(1, 3) {
+				n.Actions = append(n.Actions, Action{Kind: "enter_flow", Flow: 2, Terminal: r.Chance(1, 6)})
+			}
+			dest := func() int {
+				if r.Chance(1, 8) {
+					return 0
+				}
+				return f.Nodes[r.Intn(len(f.Nodes))].ID
+			}
+			n.Exits = []Exit{{ID: n.ID*10 + 1, Dest: dest()}, {ID: n.ID*10 + 2, Dest: dest()}}
+			rt := &Router{Default: 1, Cats: []Category{{Name: "Success", Exit: n.ID*10 + 1}, {Name: "Failure", Exit: n.ID*10 + 2}},
+				Cases: []Case{{Arg: hx.Pick(r, words), Cat: 0}}, Wait: &Wait{Dial: r.Chance(3, 4)}}
+			if !rt.Wait.Dial && r.Bool() {
+				rt.Cats = append(rt.Cats, Category{Name: "Timeout", Exit: n.ID*10 + 2})
+				rt.Wait.HasTimeout, rt.Wait.Seconds, rt.Wait.TimeoutCat = true, 60, 2
+			}
+			if r.Bool() {
+				rt.Result = hx.Pick(r, resultNames)
+			}
+			n.Router = rt
 		}
 	}
 	return a
@@ -571,7 +617,9 @@ func (a *Assets) flowJSON(f *Flow) map[string]any {
 			if rt.Result != "" {
 				rm["result_name"] = rt.Result
 			}
-			if rt.Wait != nil {
+			if rt.Wait != nil && rt.Wait.Dial {
+				rm["wait"] = map[string]any{"type": "dial", "phone": "1(206)5551212"}
+			} else if rt.Wait != nil {
 				wm := map[string]any{"type": "msg"}
 				if rt.Wait.HasTimeout {
 					wm["timeout"] = map[string]any{"seconds": rt.Wait.Seconds, "category_uuid": uuidOf(kCat, n.ID*10+rt.Wait.TimeoutCat)}
@@ -599,7 +647,8 @@ func (a *Assets) JSON() []byte {
 	for _, f := range a.Flows {
 		fl = append(fl, a.flowJSON(f))
 	}
-	b, err := json.Marshal(map[string]any{"flows": fl})
+	channels := []any{map[string]any{"uuid": channelUUID, "name": "Twilio", "address": "235326346", "schemes": []string{"tel"}, "roles": []string{"call", "answer"}}}
+	b, err := json.Marshal(map[string]any{"flows": fl, "channels": channels})
 	if err != nil {
 		panic(err)
 	}
@@ -672,7 +721,11 @@ func routerCoq(rt *Router) string {
 		if rt.Wait.HasTimeout {
 			t = fmt.Sprintf("(Some (%s, %d%%nat))", hx.N(rt.Wait.Seconds), rt.Wait.TimeoutCat)
 		}
-		w = fmt.Sprintf("(Some {| w_type := WMsg; w_timeout := %s |})", t)
+		wt := "WMsg"
+		if rt.Wait.Dial {
+			wt = "WDial"
+		}
+		w = fmt.Sprintf("(Some {| w_type := %s; w_timeout := %s |})", wt, t)
 	}
 	res := "None"
 	if rt.Result != "" {
